@@ -33,7 +33,7 @@ ASSUMPTIONS = [
 
 INTERNAL = (AssertionError, NameError, KeyError, IndexError, AttributeError, RecursionError, UnboundLocalError, NotImplementedError)
 EDITS = ["update_axis_dropped", "extra_operand", "dot_third_occurrence", "dim_changed", "dim_dropped", "size_contradicted", "size_missing", "out_renamed", "out_dropped", "brackets_added", "brackets_removed", "brackets_permuted",
-         "out_duplicated", "plus_outside_id", "tensor_removed", "tensor_added", "string_tensor", "float_size", "unbalanced", "second_arrow", "illegal_char"]  # fmt: skip
+         "out_duplicated", "dim_zero", "plus_outside_id", "tensor_removed", "tensor_added", "string_tensor", "float_size", "unbalanced", "second_arrow", "illegal_char"]  # fmt: skip
 
 
 def entry_points():
@@ -257,6 +257,29 @@ def derive_l2(rc, arrays):
         outs[0] = drop(outs[0])
         desc = X.p_desc(ins, outs)
         return res((E.SemanticError,), desc=desc)
+    if edit == "dim_zero":
+        # an axis of length zero: einx documents positive axis lengths; either a documented error or (should empty axes ever be
+        # supported) a result of exactly the shapes the output expressions denote -- never an internal error or another shape
+        names = [n for n in X.all_axis_names([X.expand(e) for e in ins + outs]) if env.get(n, 1) > 1 and n not in set(base.get("protected") or [])]
+        if fam in ("get_at", "update", "argfind") or not names:
+            return None
+        n0 = names[rnd[0] % len(names)]
+        env2 = dict(env)
+        env2[n0] = 0
+        try:
+            new_shapes = [tuple(X.shape_of(X.expand(e), env2)) for e in ins]
+            out_shapes = [tuple(X.shape_of(X.expand(e), env2)) for e in outs]
+        except Exception:  # noqa: BLE001
+            return None
+        args = [np.zeros(shp, dtype=a.dtype) for shp, a in zip(new_shapes, args)]
+        if n0 in sizes:
+            sizes[n0] = 0
+        base_f = n0.split(".")[0]
+        if "." in n0 and isinstance(sizes.get(base_f), list):
+            sizes[base_f][int(n0.split(".")[1])] = 0
+        elif "." in n0 and base_f in sizes:
+            return None
+        return res(ANY, ok_shapes=out_shapes)
     if edit == "dot_third_occurrence":
         if op != "dot":
             return None
@@ -483,6 +506,9 @@ def run_l2(rc, stats):
         with warnings.catch_warnings():
             warnings.simplefilter("ignore")
             r = getattr(einx, op)(d["desc"], *d["args"], **kw)
+        if d.get("ok_shapes") is not None and [tuple(np.shape(x)) for x in (r if isinstance(r, tuple) else (r,))] == d["ok_shapes"]:
+            stats.count("L2:dim_zero_supported")
+            return []
         return [Violation(f"C03|computed|{rc['edit']}|{G.family_of(op)}", f"{where}: ill-formed call returned a value of shape {[np.shape(x) for x in (r if isinstance(r, tuple) else (r,))]}")]
     except einx.errors.CallOperationError as e:
         return [Violation(f"C03|ran_backend|{rc['edit']}|{G.family_of(op)}", f"{where}: the compiled function was executed (CallOperationError): {str(e)[-200:]}")]
